@@ -100,9 +100,10 @@ def check_values(got, want, queries, ends, exact_unit, what, sig, law=None):
         if law is not None and not exact_unit:
             rel += 2e-15 * (sensitivity(law['wav'], law['chi'], 0.55) + sensitivity(law['wav'], law['chi'], q))
         ok = abs(g - w) <= rel * max(1., abs(w))
-        if not ok and not exact_unit and q in ends and abs(g) <= 0.:
-            ok = True  # boundary node in another unit may round outside
-        if not ok and not exact_unit and q in ends and w == 0.:
+        near_end = any(abs(q - e) <= 1e-12 * e for e in ends)
+        if not ok and not exact_unit and near_end and abs(g) <= 0.:
+            ok = True  # a query on (or within rounding of) an end node in another unit may round outside the table
+        if not ok and not exact_unit and near_end and w == 0.:
             ok = True
         if not ok:
             fail('%s: at %r micron got %r, formula gives %r' % (what, q, float(g), w), sig)
